@@ -40,6 +40,29 @@ class DO(tuple):
         return self[1]
 
 
+class Mask:
+    """A boolean array; `on_diag`: known to be True on the diagonal."""
+
+    def __init__(self, on_diag: bool):
+        self.on_diag = on_diag
+
+    def __eq__(self, other):
+        return isinstance(other, Mask) and other.on_diag == self.on_diag
+
+    def __hash__(self):
+        return hash(("Mask", self.on_diag))
+
+    def __repr__(self):
+        return f"Mask(on_diag={self.on_diag})"
+
+
+def _plain(t):
+    """A positional type whose two components agree is the plain type."""
+    if isinstance(t, DO) and t.d == t.o and t.d != Z:
+        return t.d
+    return t
+
+
 def _lift2(fn):
     """Lift a binary lattice operation on plain types component-wise to DO values."""
 
@@ -47,7 +70,7 @@ def _lift2(fn):
         if isinstance(a, DO) or isinstance(b, DO):
             a2 = a if isinstance(a, DO) else DO(a, a)
             b2 = b if isinstance(b, DO) else DO(b, b)
-            return DO(fn(self, a2.d, b2.d), fn(self, a2.o, b2.o))
+            return _plain(DO(fn(self, a2.d, b2.d), fn(self, a2.o, b2.o)))
         return fn(self, a, b)
 
     return wrapped
@@ -189,6 +212,15 @@ class TypeEval:
             # lazy slot fill inside a property: the slot takes the type of its definition
             self.atoms[norm(st.targets[0])] = self.ev(f, st.value, env)
             return None
+        if isinstance(st, ast.With):
+            # context managers that only set floating-point error handling (np.errstate) / warnings do not change values
+            if all(isinstance(it.context_expr, ast.Call) and call_name(it.context_expr) in ("np.errstate", "warnings.catch_warnings", "contextlib.suppress", "suppress") for it in st.items):
+                out = None
+                for s2 in st.body:
+                    r2 = self._stmt(f, s2, env)
+                    if r2 is not None:
+                        out = r2 if out is None else self.L.join_sum(out, r2)
+                return out
         if isinstance(st, (ast.Raise, ast.Expr, ast.Pass)):
             return None
         raise AnalysisError(f"{f.qualname}: statement outside the typing grammar: {norm(st)[:60]}")
@@ -198,6 +230,24 @@ class TypeEval:
         L = self.L
         if isinstance(e, ast.Constant):
             return L.zero
+        if isinstance(e, ast.Compare) and len(e.ops) == 1:
+            # a boolean mask: all that is kept is whether it is known to hold on the diagonal -
+            # `|X| <= nonneg` / `X == 0` / `np.isclose(X, 0)` hold wherever X is identically zero
+            left = e.left
+            if isinstance(left, ast.Call) and call_name(left) in ("abs", "np.abs", "np.absolute") and left.args:
+                left = left.args[0]
+            t = self.ev(f, left, env)
+            on_diag = isinstance(t, DO) and t.d == Z and isinstance(e.ops[0], (ast.LtE, ast.Eq))
+            return Mask(on_diag)
+        if isinstance(e, ast.Call) and call_name(e) == "np.where" and len(e.args) == 3:
+            m = self.ev(f, e.args[0], env)
+            a, b = self.ev(f, e.args[1], env), self.ev(f, e.args[2], env)
+            if not isinstance(m, Mask):
+                return TOP
+            a2 = a if isinstance(a, DO) else DO(a, a)
+            b2 = b if isinstance(b, DO) else DO(b, b)
+            # where the mask is known to hold only the first operand is read
+            return _plain(DO(a2.d if m.on_diag else L.join_sum(a2.d, b2.d), L.join_sum(a2.o, b2.o)))
         if isinstance(e, ast.Name):
             if e.id in env:
                 return env[e.id]
